@@ -674,6 +674,10 @@ func TestStress(t *testing.T) {
 			bigPoolRound(mon, rng, round)
 			continue
 		}
+		if round%16 == 13 {
+			stopWindowRound(mon, rng, round)
+			continue
+		}
 		if round == 4 && seed%100 < 2 { // (two shards of the stress, one variant each: it is the expensive round)
 			floodRound(mon, rng, round, int(seed%100))
 			continue
@@ -1069,6 +1073,96 @@ func bigPoolRound(mon *bufio.Writer, rng *rand.Rand, round int) {
 		fmt.Fprintf(mon, "MON %d FAIL %s\n", round, msg)
 	} else {
 		fmt.Fprintf(mon, "MON %d ok subs=%d\n", round, nw+5)
+	}
+}
+
+// stopWindowRound: Stop is kept waiting for the submit lock - a deferred Start of a large pool holds the read side while it spawns
+// its workers - and the pool's context is done before the first submission (the parent context was cancelled, which cancels the
+// derived pool context before cancel returns). From then on a TryExecute can only be refused, and a refusal is told from saturation by
+// the result it delivers: every call that returns false must have put one result carrying the context's error on the task's
+// channel before it returned (C04), whether it found the lock free, taken by Start or awaited by Stop; a call that returns true
+// handed the task over, and Stop releases it (executed or context error; C08/C12).
+func stopWindowRound(mon *bufio.Writer, rng *rand.Rand, round int) {
+	nw := 20000 + rng.Intn(30000)
+	opt := workerpool.Option{NumberWorker: nw, ExpandableLimit: 0, ExpandedLifetime: time.Minute, DisableAutoStart: true}
+	fmt.Fprintf(mon, "RUN %d round=%d stop window opt=%+v\n", round, round, opt)
+	mon.Flush()
+	parent, cancelParent := context.WithCancel(context.Background())
+	p := workerpool.NewPool(parent, opt)
+	var mu sync.Mutex
+	msg := ""
+	fail := func(format string, a ...interface{}) {
+		mu.Lock()
+		if msg == "" {
+			msg = fmt.Sprintf(format, a...)
+		}
+		mu.Unlock()
+	}
+	startGo := make(chan struct{})
+	startDone := make(chan struct{})
+	go func() { close(startGo); p.Start(); close(startDone) }()
+	<-startGo
+	if rng.Intn(2) == 0 {
+		runtime.Gosched()
+	}
+	cancelParent()
+	stopDone := make(chan struct{})
+	go func() { p.Stop(); close(stopDone) }()
+	var wg sync.WaitGroup
+	var calls, refused, accepted int64
+	exec := func(context.Context) (interface{}, error) { return nil, nil }
+	for g := 0; g < 4; g++ {
+		wg.Add(1)
+		go func() {
+			defer wg.Done()
+			var held []*workerpool.Task
+			extra := 3
+			giveUp := time.Now().Add(40 * time.Second)
+			for extra > 0 && time.Now().Before(giveUp) {
+				select {
+				case <-stopDone:
+					extra-- // a few more calls on the stopped pool
+				default:
+				}
+				t, ok := p.TryExecute(exec)
+				atomic.AddInt64(&calls, 1)
+				if ok {
+					atomic.AddInt64(&accepted, 1)
+					held = append(held, t)
+					continue
+				}
+				atomic.AddInt64(&refused, 1)
+				select {
+				case res := <-t.Result():
+					if res.Err != context.Canceled {
+						fail("C04 TryExecute refused a task on a pool whose context is cancelled with the result %+v", *res)
+					}
+				default:
+					fail("C04 TryExecute returned false on a pool whose context was done before the call and delivered no result (call %d of the round; Stop waiting for the lock a deferred Start of %d workers holds)", atomic.LoadInt64(&calls), nw)
+					return
+				}
+			}
+			for _, t := range held {
+				select {
+				case <-t.Result():
+				case <-time.After(10 * time.Second):
+					fail("C12 a task TryExecute handed over while the pool was being stopped never received a result")
+					return
+				}
+			}
+		}()
+	}
+	select {
+	case <-stopDone:
+	case <-time.After(30 * time.Second):
+		fail("C08 Stop did not return within 30s (deferred Start of %d workers racing it)", nw)
+	}
+	wg.Wait()
+	<-startDone
+	if msg != "" {
+		fmt.Fprintf(mon, "MON %d FAIL %s\n", round, msg)
+	} else {
+		fmt.Fprintf(mon, "MON %d ok subs=%d refused=%d accepted=%d\n", round, calls, refused, accepted)
 	}
 }
 
